@@ -19,7 +19,9 @@ import RedisGoModel.Props.C07
                               loss/duplication/reordering as in L0).
     * `applyNoop i`, `applyEntry i` — node `i` takes the next entry of ITS committed prefix `(raft.nodes i).log.take (raft.nodes i).commit`
                               (`raftexample`'s `publishEntries`): an empty entry is skipped, a proposal entry `{id, cmd}` goes through
-                              node `i`'s `Rendezvous.next … (.apply {id, cmd})`.
+                              node `i`'s `Rendezvous.next … (.apply {id, cmd})`.  One index at a time, each index once, in order: that
+                              `entriesToApply`/`publishEntries` do exactly this for every overlap of Ready batches is
+                              `Apply.apply_exactly_once` (`Cluster/Apply.lean`, tied by the `apply` engine).
     * `receive i c`        — the waiter takes its value.
 
     **The interface to Raft is discharged, not assumed.**  `Multi.RaftFacts` (the guard of `Multi`) is PROVED at every event of a
